@@ -121,6 +121,7 @@ def bounds(tier):
 def structures(tier):
     sts = [{'kind': 'site', 'i': i} for i in range(len(SITES))]
     sts.append({'kind': 'ioctl'})
+    sts.append({'kind': 'perf-history'})
     if tier == 'thorough':
         for acc in range(4):
             for hi in range(8):
@@ -190,6 +191,8 @@ def run(ctx, st):
         return run_ioctl(ctx)
     if st['kind'] == 'pathwise':
         return run_pathwise(ctx, st)
+    if st['kind'] == 'perf-history':
+        return run_perf_history(ctx, st)
     site = SITES[st['i']]
     name, window, argi, fld, family, pos = site
     a = [ctx.int('a%d' % i) for i in range(4)]
@@ -229,6 +232,39 @@ def run(ctx, st):
         c = spec[n]
         ctx.check('%s/%s' % (L, n), Implies(applicable, And(Implies(g, c), Implies(c, g))),
                   'shown iff set (Darwin value) fails for ' + n)
+    ctx.reach()
+
+
+def run_perf_history(ctx, st):
+    """flag words decode the same whatever was decoded before: an incomplete sample (header announces more frames than
+    the window carries), then the three perf flag decoders again on the same words"""
+    _, by_name = sweep.codes()
+    hflags = ctx.int('hflags', 9)
+    sflags = ctx.int('sflags', 14)
+    runmode = ctx.int('runmode', 7)
+    pe = by_name['PERF_Event']
+    evs = [sweep.make_event(10, [sflags | 0x8, 1, 0, 0], sweep.TID, pe | 1),
+           sweep.make_event(11, [hflags, 5, 0, 0], sweep.TID, by_name['PERF_STK_UHdr']),
+           sweep.make_event(12, [1, 2, 3, 4], sweep.TID, by_name['PERF_STK_UData']),
+           sweep.make_event(13, [0, 0, 0, 0], sweep.TID, pe | 2)]
+    p = sweep.new_parser()
+    try:
+        list(p.feed_generator(iter(evs)))
+    except Exception:       # noqa: C07's subject
+        ctx.reach('exc'); ctx.reach(); return
+    for nm, argi, word, family in (('PERF_STK_UHdr', 0, hflags, 'callstack'), ('PERF_Event', 0, sflags, 'sampler'),
+                                   ('PERF_THD_Data', 3, runmode, 'kperfti')):
+        a = [0, 0, 0, 0]
+        a[argi] = word
+        o = run_single(ctx, nm, a)
+        if o.kind != 'text':
+            continue
+        spec, applicable, unconstrained = FAMILIES[family](word)
+        shown = shown_names(o.pieces, family)
+        for n in sorted(set(shown) | (declared_names(shown, family) & set(spec))):
+            g = shown.get(n, False)
+            c = spec.get(n, False)
+            ctx.check('C11/%s/after-history/%s' % (nm, n), And(Implies(g, c), Implies(c, g)), 'shown iff set fails for %s after an incomplete sample' % n)
     ctx.reach()
 
 
